@@ -560,7 +560,7 @@ func genSeq(c *vlib.Collector, seed uint64, id *int) {
 		if !c.Wanted(*id) {
 			continue
 		}
-		g := &idxGen{r: r, nSvc: 1 + r.Intn(3), nNs: 1 + r.Intn(2), nSK: 2 + r.Intn(3)}
+		g := &idxGen{r: r, nSvc: 1 + r.Intn(3), nNs: 1 + r.Intn(3), nSK: 2 + r.Intn(3)}
 		nops := 6 + r.Intn(35)
 		last := map[cellKey][]EP{}
 		var ops []Op
